@@ -197,8 +197,15 @@ impl ScannerConfig {
         // Add the error token as last terminal of the mode, unless allow_unmatched is set
         if !self.allow_unmatched {
             let error_index = terminal_names.len() - 1;
+            // `.` does not match line breaks. They are covered by the auto newline token, if it is
+            // switched off the catch-all itself has to match them.
+            let error_token = if self.auto_newline {
+                ERROR_TOKEN.to_owned()
+            } else {
+                format!("(?s:{ERROR_TOKEN})")
+            };
             terminal_mappings.push((
-                ERROR_TOKEN.to_owned(),
+                error_token,
                 error_index as TerminalIndex,
                 None,
                 terminal_names[error_index].clone(),
